@@ -103,6 +103,16 @@ def run(prog, tier):
             if not any(f.nodes[x]['k'] == 'CXXThrowExpr' for x in body):
                 res.viol('swallow', 'handler without rethrow', f.loc(t['id']),
                          'a handler in the save path swallows an exception', function=f.sig, expr='catch')
+    # `os << streambuf*` copies until the first failed insertion and sets failbit only when NOTHING was inserted
+    # ([ostream.inserters]/8): a partly written block leaves the stream good - not a checked write
+    for u in sorted(save):
+        f = prog.funcs[u]
+        for n in f.calls():
+            c = n['callee']
+            if c['name'] == 'operator<<' and str(c.get('classq', '')).startswith('std::basic_ostream') and any('basic_streambuf' in str(t) for t in c.get('ptypes', [])):
+                res.viol('hide', 'operator<<(streambuf*) on the output stream', f.loc(n['id']),
+                         'the block is copied with `stream << buffer`: a write failure after the first byte does not set any error bit (failbit only if no character at all was inserted), '
+                         'so a truncated file is reported as saved', function=f.sig, expr='streambuf-insert')
     # nobody else opens an output stream
     openers = 0
     for f in prog.repo_funcs():
